@@ -250,7 +250,20 @@ class World:
             self.emission_hook(n)
         who = self.oid(n.notifier)
         fid = self.fid_of.get(id(n.feature))
-        self.notifs.append((who, fid, n.kind.name, self.tok(n.old), self.tok(n.new)))
+        self.notifs.append((who, fid, n.kind.name, self.payload(n.kind.name, 'REMOVE', n.old),
+                            self.payload(n.kind.name, 'ADD', n.new)))
+
+    def payload(self, kind, family, v):
+        """what an observer takes from a notification: one element for ADD / REMOVE, the elements of the collection for
+        ADD_MANY / REMOVE_MANY (read the way Python reads them: a str given as the collection is its characters, a
+        collection given as the one element is an element)"""
+        if kind == family + '_MANY':
+            if isinstance(v, str) or not hasattr(v, '__iter__'):
+                return '[x:not-a-collection]'
+            return '[' + ','.join(self.tok(x) for x in v) + ']'
+        if kind == family and (isinstance(v, (list, tuple, set)) or hasattr(v, '_update_opposite')):
+            return 'x:collection-as-element'
+        return self.tok(v)
 
     def new_obj(self, cid):
         o = self.classes[cid]()
@@ -345,6 +358,10 @@ class World:
             c.extend([self.val(t) for t in a[2:]]); return None
         if op == 'iadd':
             c += [self.val(t) for t in a[2:]]; return None
+        if op == 'delslice':
+            del c[int(a[2]):int(a[3])]; return None
+        if op == 'setslice':
+            c[int(a[2]):int(a[3])] = [self.val(t) for t in a[4:]]; return None
         raise common.InfraError('bad op ' + op)
 
 
